@@ -273,6 +273,14 @@ def w_misc(job):
     return n, n, fails, counts, {}
 
 
+
+def rejob(x):
+    """Re-execute one worker job (used by ./check --rejob for history-dependent failures)."""
+    def tup(v):
+        return tuple(tup(y) for y in v) if isinstance(v, list) else v
+    return globals()[x[0]](tup(x[1]))
+
+
 def _dispatch(job):
     fn, arg = job
     return fn(arg)
@@ -293,7 +301,10 @@ def run(tier, seed):
     res = pool.pmap(_dispatch, jobs)
     n = nt = 0
     failures, counts, outcomes, per = [], {}, {}, {}
-    for (fn, _), (a, b, fl, c, o) in zip(jobs, res):
+    for (fn, arg), (a, b, fl, c, o) in zip(jobs, res):
+        for _f in fl:
+            if isinstance(_f, dict) and "key" in _f:
+                _f.setdefault("job", {"fn": "nslmc.props.c10:rejob", "arg": [fn.__name__, arg]})
         n += a
         nt += b
         per[fn.__name__] = per.get(fn.__name__, 0) + a
